@@ -307,6 +307,16 @@ def cases(draw):
         w = draw(vs.walk_world(value_tags=tags))
         dbl, roots = w["db"], w["roots"]
         table_oid = entry_oid = None   # not a conceptual table: table()/bulktable() are outside the domain
+    # values that are falsy in Python on either side of the wrapper: zero, empty string, 0.0.0.0, zero ticks, and the
+    # zero-length OBJECT IDENTIFIER some embedded agents send for "no reference" (x690 reads it as ObjectIdentifier())
+    for _ in range(draw(st.sampled_from([0, 0, 1, 2, 4]))):
+        if dbl:
+            i = draw(st.integers(0, len(dbl) - 1))
+            falsy = [[vber.T_INT, "00"], [vber.T_OCTETS, ""], [vber.T_OID, ""], [vber.T_OID, ""], [vber.T_IPADDR, "00000000"],
+                     [vber.T_TICKS, "00"], [vber.T_COUNTER, "00"], [vber.T_GAUGE, "00"], [vber.T_OPAQUE, ""]]
+            if not v1:
+                falsy.append([vber.T_COUNTER64, "00"])
+            dbl[i] = [dbl[i][0]] + draw(st.sampled_from(falsy))
     keys = [o for o, _, _ in dbl]
     pool = keys + [k[:-1] for k in keys[:4]] + [k + [0] for k in keys[:2]] + [[1, 3], [1, 3, 6, 1, 2, 1, 1, 1, 0]]
     ops = [o for o in OPS if not (v1 and o in ("bulkwalk", "bulkget", "bulktable"))
